@@ -213,7 +213,10 @@ class CheckTypes(Contract):
                 continue
             how = passed[n]
             if how == "star":
-                vals = tuple(fresh_data(f"arg_{n}{i}", ms, optional, schemas, frame_cls) for i in range(2))
+                # (the call shape passes two values to *args; one value alone is a shape of its own: the bundle then has as many
+                # entries as there are bound names)
+                nstar = 2 - p.choose([("two_star_values", None), ("one_star_value", None)], f"n_star({n})")
+                vals = tuple(fresh_data(f"arg_{n}{i}", ms, optional, schemas, frame_cls) for i in range(nstar))
                 frame.args = frame.args[:-2] + list(vals)
                 frame.values[n] = vals
             elif how == "starkw":
